@@ -378,7 +378,10 @@ pub struct FmtObs {
     pub out1_sig: Vec<(SyntaxKind, Vec<u8>)>, pub out2: Outcome, pub out2_text: Vec<u8>,
 }
 
-pub fn observe(src: &[u8], o: &Opts) -> FmtObs {
+pub fn observe(src: &[u8], o: &Opts) -> FmtObs { observe_with(src, o, true) }
+
+/// `with_behaviour = false` skips the (expensive) compilation of input and output.
+pub fn observe_with(src: &[u8], o: &Opts, with_behaviour: bool) -> FmtObs {
     let in_sig = catch(AssertUnwindSafe(|| significant(src))).unwrap_or_default();
     let (out1, out1_text) = run_format(src, o);
     let (out1_sig, out2, out2_text) = if let Outcome::Ok(_) = out1 {
@@ -386,7 +389,7 @@ pub fn observe(src: &[u8], o: &Opts) -> FmtObs {
         let (o2, t2) = run_format(&out1_text, o);
         (s, o2, t2)
     } else { (vec![], Outcome::Ok(false), vec![]) };
-    let (same_behaviour, in_compiles) = if let Outcome::Ok(_) = out1 {
+    let (same_behaviour, in_compiles) = if !with_behaviour { (true, false) } else if let Outcome::Ok(_) = out1 {
         let b = behaviour(src);
         (src == out1_text.as_slice() || b == behaviour(&out1_text), !b.starts_with("errors:") && !b.starts_with("panic:"))
     } else { (true, false) };
@@ -416,7 +419,7 @@ pub fn failing_clauses(src: &[u8], ob: &FmtObs) -> Vec<&'static str> {
 }
 
 fn fails(src: &[u8], o: &Opts, clause: &str) -> bool {
-    let ob = observe(src, o);
+    let ob = observe_with(src, o, clause == "behaviour");
     failing_clauses(src, &ob).contains(&clause)
 }
 
@@ -432,7 +435,7 @@ pub fn classify(src: &[u8], o: &Opts, clause: &str) -> String {
     if clause == "idempotence" && valid == "valid-source" { classify_idempotence(src, o) }
     else if clause == "idempotence" { "idempotence:invalid-source".to_string() }
     else if clause == "tokens" {
-        let ob = observe(src, o);
+        let ob = observe_with(src, o, false);
         let (a, b) = (&ob.in_sig, &ob.out1_sig);
         let n = a.len();
         let ext = n > 0 && n == b.len() && a[..n - 1] == b[..n - 1] && a[n - 1].0 == b[n - 1].0 && b[n - 1].1.starts_with(&a[n - 1].1)
@@ -554,7 +557,7 @@ pub fn classify_idempotence(src: &[u8], o: &Opts) -> String {
         cand.extend_from_slice(&src[at..]);
         if !fails(&cand, o, "idempotence") { return "idempotence:block-comment-before-first-condition-term".into(); }
     }
-    let ob = observe(src, o);
+    let ob = observe_with(src, o, false);
     let fp = diff_fingerprint(&ob.out1_text, &ob.out2_text);
     if !fp.starts_with("whitespace-next-to-comment") && !fp.starts_with("comment-continuation") {
         // the change is not next to a comment: is it nevertheless caused by one? (does the
@@ -743,6 +746,7 @@ pub fn run(args: &[String]) -> i32 {
     let n_fmt = arg_u64(args, "--n", 1200) as usize;
     let n_proc = arg_u64(args, "--n-proc", 400) as usize;
     let opts_per_source = arg_u64(args, "--opts", 2) as usize;
+    let behaviour_every = arg_u64(args, "--behaviour-every", 1).max(1) as usize;
     let out = arg_val(args, "--out").expect("--out");
     let prelude = "From Coq Require Import List NArith ZArith Bool.\nFrom YV Require Import Fmt.Tokens Gen.FmtCats Fmt.Processor Fmt.Bubble Fmt.Stages Fmt.FmtCheck.\nImport ListNotations.\nLocal Open Scope N_scope.\n";
     let mut shards = Shards::new(Path::new(&out), prelude, 150);
@@ -798,7 +802,7 @@ pub fn run(args: &[String]) -> i32 {
         distinct.insert(src_bytes.clone());
         for o in opt_list {
             index += 1;
-            let ob = observe(&src_bytes, &o);
+            let ob = observe_with(&src_bytes, &o, index % behaviour_every == 0);
             let mut it = Interner::new();
             let failing = failing_clauses(&src_bytes, &ob);
             if ob.in_compiles { stats.inc("behaviour_compared_on_compiling_source"); }
